@@ -38,14 +38,14 @@ def run(ctx):
     dist = {'fp_pair_class': {}, 'fp_kinds': {}, 'bits': {}, 'forms': {}, 'measures': {}, 'array_class': {},
             'array_flags': {'nonbinary': 0, 'dups': 0, 'unsorted': 0, 'explicit_zeros': 0}, 'db_via_array': 0, 'db_rows': {},
             'outcomes': {'value': 0, 'exception': 0, 'nan': 0, 'complex': 0}, 'prop_checks': 0, 'nojit_cases': 0,
-            'skipped_tanimoto_dice_on_nonbinary_arrays': 0,
+            'skipped_tanimoto_dice_on_nonbinary_arrays': 0, 'masked_pearson_entries': 0,
             'zero_scores': 0, 'one_scores': 0}
     allow = {}
 
     def bump(d, k, n=1):
         d[k] = d.get(k, 0) + n
 
-    def record(key, r, model, payload, prop=None, fkey=None):
+    def record(key, r, model, payload, prop=None, fkey=None, mask=None):
         """r: observation of the implementation; model: Coq expression of type `result mres`."""
         nonlocal found_input
         bump(dist['outcomes'], {'ok': 'value', 'err': 'exception'}.get(r[0], r[0]))
@@ -61,19 +61,26 @@ def run(ctx):
             dist['zero_scores'] += sum(1 for x in flat if x == 0)
             dist['one_scores'] += sum(1 for x in flat if abs(x - 1) < Fraction(1, 10 ** 9))
         k1 = 'corr/' + key
-        cases.append((k1, 'res_close %s %s (%s)' % (TOL, G.obs_lit(r), model)))
+        if mask:
+            dist['masked_pearson_entries'] += len(mask)
+        cases.append((k1, 'res_close %s %s (%s)' % (TOL, G.obs_lit(r, mask), model)))
         payloads[k1] = payload
         mexpr[k1] = model
         fkeys[k1] = None
         if prop is not None:
             k2 = 'prop/' + key
-            cases.append((k2, 'res_close %s %s (%s)' % (TOL, G.obs_lit(r), prop)))
+            cases.append((k2, 'res_close %s %s (%s)' % (TOL, G.obs_lit(r, mask), prop)))
             p2 = dict(payload)
             p2['compared_with'] = 'the definition on the dense vectors'
             payloads[k2] = p2
             mexpr[k2] = prop
             fkeys[k2] = fkey
             dist['prop_checks'] += 1
+
+    def pearson_mask(xs, ys):
+        cx = [G.is_const_nonzero(v) for v in xs]
+        cy = [G.is_const_nonzero(v) for v in ys]
+        return set((i, j) for i in range(len(xs)) for j in range(len(ys)) if cx[i] or cy[j])
 
     import e3fp.fingerprint.metrics as M
     from e3fp.fingerprint.metrics import fprint_metrics as FM, array_metrics as AM
@@ -144,19 +151,23 @@ def run(ctx):
                 pl = dict(base)
                 pl.update(extra)
                 pl['form'] = form
-                record('%s/%s/%s/%d' % (tag, form, m, len(cases)), r, model, pl, prop=prop, fkey=fk)
+                mask = None
+                if m == 'pearson' and small and 'db' in form:
+                    xs_, ys_ = {'fp,db': ([va], vdb), 'db,fp': (vda, [vb]), 'db,db': (vda, vdb), 'db,None': (vda, vda)}[form]
+                    mask = pearson_mask(xs_, ys_)
+                record('%s/%s/%s/%d' % (tag, form, m, len(cases)), r, model, pl, prop=prop, fkey=fk, mask=mask)
                 bump(dist['forms'], form)
                 bump(dist['measures'], m)
                 nontriv = bool(a0['idx']) and bool(b0['idx']) and a0['cnt'] != b0['cnt']
                 ctx.count((form, m, str(a0), str(b0), str(da0) if 'db' in form else '', str(db0) if 'db' in form else ''), nontriv)
 
-    for i in range(ctx.n(70, 1300)):
+    for i in range(ctx.n(180, 4000)):
         cls, sa, sb = G.rand_fp_pair(rng, allow)
         fp_forms('p%d' % i, cls, sa, sb)
 
     # ------------------------------------------------------------------ 2. rejections
     from e3fp.fingerprint.fprint import Fingerprint
-    for i in range(ctx.n(12, 100)):
+    for i in range(ctx.n(20, 200)):
         sa = fpgen.rand_spec(rng, bits=rng.choice([4, 8, 16, 1024]), named=False)
         sb = fpgen.rand_spec(rng, bits=rng.choice([32, 64, 2 ** 32]), named=False)
         if rng.random() < 0.5:
@@ -185,7 +196,7 @@ def run(ctx):
 
     # ------------------------------------------------------------------ 3. raw arrays: dense, CSR, mixed
     nojit_jobs = []
-    for i in range(ctx.n(110, 2200)):
+    for i in range(ctx.n(220, 6000)):
         cls, X, Y = G.rand_arr_pair(rng, allow)
         bump(dist['array_class'], cls)
         fl = G.arr_flags(X)
@@ -212,11 +223,12 @@ def run(ctx):
             prop = None if 'width-mismatch' in cls else 'Ok (def_pairwise %s %s %s)' % (mc, G.vecs_lit(xs), G.vecs_lit(ys))
             r = G.observe(lambda: getattr(AM, m)(G.build_arr(X), None if Y is None else G.build_arr(Y)))
             pl = {'measure': m, 'class': cls, 'X': G.arr_json(X), 'Y': None if Y is None else G.arr_json(Y), 'form': 'array', 'flags': fl}
-            record('a%d/%s/%d' % (i, m, len(cases)), r, model, pl, prop=prop, fkey=fk)
+            mask = pearson_mask(xs, ys) if m == 'pearson' else None
+            record('a%d/%s/%d' % (i, m, len(cases)), r, model, pl, prop=prop, fkey=fk, mask=mask)
             bump(dist['forms'], 'array:' + cls.split('/')[1])
             bump(dist['measures'], m)
             ctx.count(('arr', m, str(X), str(Y)), any(any(v != 0 for v in r_) for r_ in xs))
-            if m == 'soergel' and len(nojit_jobs) < ctx.n(60, 600):
+            if m == 'soergel' and len(nojit_jobs) < ctx.n(100, 1500):
                 nojit_jobs.append(({'m': m, 'X': G.arr_json(X), 'Y': None if Y is None else G.arr_json(Y)}, model, prop, fk, pl))
 
     # ------------------------------------------------------------------ 4. the same Soergel kernels without numba (pure Python)
@@ -263,7 +275,7 @@ def run(ctx):
     ctx.assumptions += [
         'array_metrics.tanimoto/dice are called on raw arrays with 0/1 data only (any dtype, explicit zeros, duplicates that add up to 0/1): their docstring states "Data must be binary. This is not checked."; the theorems arr/sp_tanimoto_eq_def carry the hypothesis `binary`',
         'values are non-negative; counts < 2^16 (the uint16 database dtype); float inputs are finite doubles, taken exactly',
-        'Pearson of a constant non-zero vector (mathematically 0/0) is only compared for exactly representable constants, where the code reaches its zero-denominator branch; with round-off the quotient is ill-conditioned',
+        'Pearson with a constant non-zero operand is mathematically 0/0: the array/database forms decide it by round-off (observed: CSR rows [1]*6 against each other give 1.0000000000000002, the dense form 0.0), so those matrix entries are masked; the fingerprint-pair form is compared (exactly representable constants reach its zero-denominator branch and score 0)',
         'database forms of Pearson only for bits <= %d and of Tanimoto/Dice/cosine for bits <= 2^20 (the code densifies, resp. SciPy allocates O(bits): 32 GiB at 2^32); Soergel database forms and all fingerprint-pair forms are run up to 2^32' % PEARSON_DB_MAX_BITS,
         'NumPy/SciPy kernels (dot, sparse product, cdist, corrcoef, sparse norm, sorted_indices, nan_to_num) and numba behave as modelled; exercised by the correspondence only',
         'tolerance 1e-9 (relative above 1); rooted values are compared through the monotone signed square, exactly',
